@@ -210,7 +210,7 @@ def sparsify (idx : List Nat) : Nat → Json → Json
 
 def handleIdx (entry : String) (j : Json) : Except String Json := do
   let r ← handle1 entry j
-  match optField j "idx" with
+  match optField j "pick" with
   | none => pure r
   | some v => do
     let idx ← getList getNat v
